@@ -223,6 +223,16 @@ def main():
         if any(m in broken_mods for m in model_mods):
             raise InternalError('model does not build: ' + '; '.join(broken_reasons))
         nobl, nok, details, audit_txt = audit(pid, meta, broken_mods)
+        if tier == 'thorough':
+            # independent re-check of the compiled proof modules by the toolchain's stand-alone kernel (leanchecker)
+            lc = [m for m in meta['lean_modules'] if m not in broken_mods]
+            try:
+                pc = subprocess.run(['lake', 'env', 'leanchecker'] + lc, cwd=LEAN, capture_output=True, text=True, timeout=1500)
+                ctx.note('leanchecker on %d modules: exit %d' % (len(lc), pc.returncode))
+                if pc.returncode != 0:
+                    broken_reasons.append('leanchecker rejects the compiled modules: %s' % (pc.stdout + pc.stderr)[-400:])
+            except FileNotFoundError:
+                ctx.note('leanchecker not available')
         for t, ax in details.items():
             if ax and ax[0] in ('MISSING', 'FORBIDDEN'):
                 broken_reasons.append('theorem %s: %s' % (t, ' '.join(ax)))
